@@ -16,7 +16,7 @@ check("C05", "exploration",
 check("C16", "exploration",
       "~35k (quick) / ~10^6 (thorough) literals evaluated on the real engine and compared with oracles that do not share code with the "
       "parser: python big ints + the [lex.icon] typing table (typeid-exact), glibc strtof/strtod/strtold within 4 ulp, an independent C++ "
-      "escape decoder (malformed => must be eval_error), and keyword-colliding identifiers found by FNV-1a inversion at check time and "
+      "escape decoder (malformed => must be eval_error), ~130 malformed numeric spellings (octal with 8/9, repeated/ill-formed suffixes, exponent marker without digits: must be rejected), and keyword-colliding identifiers found by FNV-1a inversion at check time and "
       "confirmed with the engine's own hash, used as variable/function/parameter/global/attribute names.",
       "Trusted: glibc strto*, python int/bytes semantics, my transcription of [lex.icon]/[lex.ccon]. LP64 only.",
       "model-based oracle over generated literals on the ASan/UBSan-instrumented engine", "DESIGN.md section 5 C16")
@@ -45,9 +45,9 @@ check("C19", "exploration",
       "~2k/100k file contents (all prefixes of length 0..12 of 36 snippets, random cuts of shipped scripts, +-BOM, double BOM, partial BOMs, "
       "CRLF, shebang, trailing NULs) are evaluated through eval_file and through eval(bytes minus one BOM) on two fresh engines: class, result, "
       "reason, position, stdout and the number of bytes handed to the parser (hook) must agree; missing files must raise file_not_found_error; "
-      "600/30k histories of use()/eval_file() (C++ and script level) over logging files in up to 3 search directories, with nested and failing "
-      "includes, are checked call by call against a model of the used set (exactly-once, search order, error propagation).",
-      "Trusted: hook H3b (first_parse_input_size), the python model of use(). Cyclic includes are not generated.",
+      "600/30k histories of use()/eval_file() (C++ and script level) over logging files in up to 3 search directories, with nested, failing "
+      "and cyclic includes, are checked call by call against a model of the used set (exactly-once, search order, error propagation).",
+      "Trusted: hook H3b (first_parse_input_size), the python model of use(). A use() of a file from inside its own evaluation is taken to be a no-op.",
       "differential execution (file vs string) + model-checked call histories with a logging callback, under ASan", "DESIGN.md section 5 C19")
 check("C02", "exploration",
       "2.5k/300k generated programs over the property's construct list (plus templates aimed at each optimizer pass: loop-variable captures, "
@@ -61,24 +61,25 @@ check("C08", "exploration",
       "2.5k/200k cases: generated functions whose bodies build and mutate values from literals (all literal kinds incl. foldable booleans, "
       "interpolation, inline vectors/maps/ranges) are each called 3-6 times in a seeded interleaving, alternately from source and by "
       "re-evaluating a stored parse tree; execution i must equal execution 1 (result, type, output, error class); parse trees must print "
-      "identically before and after; parameter-assigning functions are called with foldable constant arguments.",
-      "Trusted: equality of first and later executions as oracle (no absolute expectation).", 
+      "identically before and after; parameter-assigning functions are called with foldable constant arguments; 30% of the cases contain a function that re-enters itself "
+      "out of a loop body and is judged against its closed-form result.",
+      "Trusted: equality of first and later executions as oracle; closed-form expectations for the re-entrant templates.", 
       "history oracle over repeated evaluations of the same code, under ASan", "DESIGN.md section 5 C08")
 check("C04", "exploration",
       "2.5k/200k programs in which one body is evaluated repeatedly under changing scope layouts (eval()-injected variables, conditional "
       "declarations, recursion, lambdas called free/bound/as attribute, method vs free calls; all permutations of <=3 calls) plus a layout-stable "
       "control group are run three times: lookup hints in normal use, hints bypassed through hook H1 (every identifier resolved by name) and in "
-      "audit mode (each lookup resolved both ways, counted per code path). Normal and bypass must agree; the two recorded residual shapes are "
+      "audit mode (each lookup resolved both ways, counted per code path). Normal and bypass must agree; the recorded residual shapes (four probe kinds) are "
       "produced only by dedicated probe programs and attributed by the audit hook's classification.",
       "Trusted: hook H1 (bypass = the engine's own by-name search; audit never changes the returned value). Known-finding attribution is per code path + circumstance.",
       "differential execution (cache on vs forced off) + online audit hook comparing cached and by-name resolution, under ASan", "DESIGN.md section 5 C04")
 check("C09", "fault_enumeration",
       "For each of 200/10k generated programs (chailang + frame templates reaching callbacks through def, lambda, method, attribute-held "
       "function, bind, for_each/map/filter/foldl, guards, operator overloads, [], constructors, eval strings, interpolation, catch/finally "
-      "bodies, loop conditions, switch, recursion) every invocation of a harness callback (first 60) is made to throw each of 8 exception "
+      "bodies, loop conditions, switch, recursion, calls through a registered conversion, calls that fail while being set up) every invocation of a harness callback (first 60) is made to throw each of 8 exception "
       "kinds in turn (~20k faulted runs per quick run); after each run the thread's stack shape (hook H2) equals the shape before, "
       "get_locals() is exactly the declarations of completed top-level statements, and a sanity script evaluates.",
-      "Trusted: hook H2 (read-only accessor), mark() statements as statement-progress oracle. Size of the parked conversion saves is not asserted.",
+      "Trusted: hook H2 (read-only accessor), mark() statements as statement-progress oracle. The number of pending conversion results is part of the compared shape.",
       "fault injection at every callback invocation + invariant check on hooked engine state, under ASan", "DESIGN.md section 5 C09")
 check("C13", "exploration",
       "40/2000 rounds: a fresh engine is driven by 2..16 threads running seeded operation lists (shared calls, colliding locals, def/global/class/"
@@ -147,7 +148,8 @@ check("C06", "exploration",
       "Trusted: the admissibility table (calibrated against the observed single-overload matrix, which agrees with the documented rules cell by cell). MAY cells and ambiguous non-exact candidate sets are logged, never judged.",
       "trace specification over an entry log of instrumented C++ functions, on generated overload sets x argument tuples, under ASan", "DESIGN.md section 5 C06")
 check("C03", "exploration",
-      "4k/400k generated programs over the whole modelled core language + 2.5k/100k minimal-parenthesis precedence expressions run on the real "
+      "4k/400k generated programs over the whole modelled core language + 600/30k programs copying parameters bound to temporaries + 700/40k "
+      "programs over string->int maps + 2.5k/100k minimal-parenthesis precedence expressions run on the real "
       "engine and, as ASTs, on an independent reference interpreter of the documented semantics (lib/chailang/interp.py): stdout, final "
       "value+type, error class and the trace of a harness callback must agree. A divergence is attributed to a recorded finding only if the "
       "model with exactly that finding's deviation switch reproduces the engine's complete behaviour; anything else is a violation.",
